@@ -483,6 +483,8 @@ VARIANTS["C13"] = [
     M("subfaces-codim1-reversed", SC, "            for face in combinations(simplex, size - 1):\n                faces.append(face)", "            for face in combinations(simplex[::-1], size - 1):\n                faces.append(face)", "B-FACE", "_subfaces"),
     R("sign-without-mod", HO, "                    (orientations[u_simplex_id] + order - i) % 2\n", "                    orientations[u_simplex_id] + order - i\n"),
     R("sign-inline", HO, "                    B[simplices_d_dict[subface_ID], matrix_id] = (-1) ** (\n                        subfaces_induced_orientation[count] + orientations[subface_ID]\n                    )", "                    B[simplices_d_dict[subface_ID], matrix_id] = (-1) ** (\n                        orientations[u_simplex_id] + order - count + orientations[subface_ID]\n                    )"),
+    R("sign-with-xor-flag", HO, "                    B[simplices_d_dict[subface_ID], matrix_id] = (-1) ** (\n                        subfaces_induced_orientation[count] + orientations[subface_ID]\n                    )", "                    flip = int(orientations[u_simplex_id] != orientations[subface_ID])\n                    B[simplices_d_dict[subface_ID], matrix_id] = (-1) ** (order - count + flip)"),
+    M("sign-with-or-flag", HO, "                    B[simplices_d_dict[subface_ID], matrix_id] = (-1) ** (\n                        subfaces_induced_orientation[count] + orientations[subface_ID]\n                    )", "                    flip = bool(orientations[u_simplex_id] or orientations[subface_ID])\n                    B[simplices_d_dict[subface_ID], matrix_id] = (-1) ** (order - count + flip)", "B-SIGN", "boundary_matrix"),
 ]
 
 # --------------------------------------------------------------------------- C19
